@@ -96,6 +96,8 @@ public:
 
     static std::string nameOf(const NamedDecl *d) {
         if (!d) return "";
+        if (auto *cd = dyn_cast<CXXConstructorDecl>(d)) return cd->getParent()->getNameAsString();
+        if (auto *dd = dyn_cast<CXXDestructorDecl>(d)) return "~" + dd->getParent()->getNameAsString();
         if (d->getDeclName().isIdentifier()) return d->getName().str();
         return d->getNameAsString();
     }
